@@ -10,7 +10,7 @@ def cap(f):
         f()
     return b.getvalue()
 s7 = open(os.path.join(ROOT, "lib", "design_s7.md")).read()
-s7 = s7.replace("@@SEEDS@@", cap(T.seeds)).replace("@@PROPS@@", cap(T.props)).replace("@@FINDINGS@@", cap(T.findings))
+s7 = s7.replace("@@SEEDS@@", cap(T.seeds)).replace("@@PROPS@@", cap(T.props)).replace("@@FINDINGS@@", cap(T.findings)).replace("@@AXIOMS@@", cap(T.axioms))
 p = os.path.join(ROOT, "DESIGN.md"); s = open(p).read()
 m = "\n## 7. As built"
 if m in s: s = s[:s.index(m)]
